@@ -509,6 +509,52 @@ class SFmt(Sym):
         return f"SFmt{self.parts!r}"
 
 
+class SCases(Sym):
+    """A value that is one of several structurally different alternatives -- e.g. a size tuple of unknown
+    arity: (), (c,) or (c, r) -- each guarded by a z3 condition; the guards are mutually exclusive and
+    jointly exhaustive.  `State.force` picks the alternative (forking over the feasible ones); equality
+    with another value is a formula (never forks); nothing else is defined on it."""
+
+    __slots__ = ("cases",)
+
+    def __init__(self, cases):
+        self.cases = [(c if not isinstance(c, SBool) else c.e, v) for c, v in cases]
+
+    def __eq__(self, o):
+        if isinstance(o, SCases):
+            return either(*[both(mk_bool(z3.And(c1, c2)), struct_eq(v1, v2)) for c1, v1 in self.cases for c2, v2 in o.cases])
+        return either(*[both(mk_bool(c), struct_eq(v, o)) for c, v in self.cases])
+
+    def __ne__(self, o):
+        return neg(self.__eq__(o))
+
+    __hash__ = None
+
+    def __repr__(self):
+        return f"SCases({self.cases!r})"
+
+
+def struct_eq(a, b):
+    """Equality as a formula (never forks), component-wise on tuples of statically known arity."""
+    if isinstance(a, SCases):
+        return a.__eq__(b)
+    if isinstance(b, SCases):
+        return b.__eq__(a)
+    if isinstance(a, tuple) or isinstance(b, tuple):
+        if not (isinstance(a, tuple) and isinstance(b, tuple)) or len(a) != len(b):
+            return False
+        return both(*[struct_eq(x, y) for x, y in zip(a, b)])
+    if isinstance(a, SOpt) or isinstance(b, SOpt):
+        return opt_eq(a, b)
+    return eq(a, b)
+
+
+def _as_cases(ce, x):
+    if isinstance(x, SCases):
+        return [(z3.And(ce, c), v) for c, v in x.cases]
+    return [(ce, x)]
+
+
 # ---------------------------------------------------------------------------------------------
 # dual-use helpers (symbolic or concrete)
 
@@ -619,6 +665,16 @@ class SIte(Sym):
 def _ite_struct(ce, a, b):
     if a is b:
         return a
+    if isinstance(a, SCases) or isinstance(b, SCases):
+        return SCases(_as_cases(ce, a) + _as_cases(z3.Not(ce), b))
+    if type(a).__name__ == "SObj" and type(b).__name__ == "SObj" and set(a.fields) == set(b.fields) and (a.cls is b.cls or issubclass(b.cls, a.cls)):
+        # two objects of one class with the same fields (canvases stored in a list): field-wise conditional
+        parts = {k: _ite_struct(ce, a.fields[k], b.fields[k]) for k in a.fields}
+        if any(p is _NOITE for p in parts.values()):
+            return _NOITE
+        o = type(a)(a.cls, parts, a.base_list)
+        o.shape = a.shape
+        return o
     if isinstance(a, (bool, SBool)) and isinstance(b, (bool, SBool)):
         return mk_bool(z3.If(ce, _zb(a), _zb(b)))
     if is_num(a) and is_num(b) and not isinstance(a, (bool, SBool)) and not isinstance(b, (bool, SBool)):
@@ -749,12 +805,12 @@ def forall(lo, hi, fn):
         return r
     st = cur()
     if st.capture is None:
-        if getattr(st, "has_quant", False):
-            empty = st.refuted_qf(_z(lo) < _z(hi))
-        else:
-            empty = st._check(_z(lo) < _z(hi), 1000)[0] == z3.unsat
-        if empty:
-            return True  # empty range on this path
+        if st.qf_refutes(_z(lo) < _z(hi)):
+            return True  # empty range on this path (refuted by the quantifier-free part of the path condition alone)
+        if st.n_quantified and not st.cfg.qf_branching and not getattr(st.cfg, "qf_forall_only", False):
+            r0, _m = st._check(_z(lo) < _z(hi), 1000)
+            if r0 == z3.unsat:
+                return True  # empty range on this path
     j = z3.Int(st.fresh_name("q"))
     saved = st.capture
     st.capture = []
@@ -770,6 +826,31 @@ def forall(lo, hi, fn):
         # in-range index: they are asserted on their own, not made part of the formula (which may be a goal)
         st.assume(z3.ForAll([j], z3.Implies(rng, z3.And(*facts))))
     return mk_bool(z3.ForAll([j], z3.Implies(rng, b)))
+
+
+def arbitrary(name):
+    """An arbitrary integer: one unconstrained constant per (path, name), shared by loop invariants, contracts of
+    callees and postconditions.  Nothing may be assumed about it except instances of facts that hold for every
+    integer (proved lemmas, verified per-index postconditions), so a formula proved for it holds universally
+    (universal generalisation) -- this keeps "for every index" obligations quantifier-free."""
+    st = cur()
+    d = st.ghost.setdefault("arbitrary", {})
+    if name not in d:
+        d[name] = st.fresh_int(name)
+    return d[name]
+
+
+def lazy_forall(lo, hi, fn):
+    """Record the fact `for all lo <= j < hi: fn(j)` without asserting a quantifier; `instantiate(j...)` asserts its
+    instances at the indices in play (DESIGN 3.7: ground instantiation)."""
+    cur().ghost.setdefault("lazy_forall", []).append((lo, hi, fn))
+
+
+def instantiate(*indices):
+    st = cur()
+    for lo, hi, fn in list(st.ghost.get("lazy_forall", [])):
+        for j in indices:
+            st.assume(implies(both(lo <= j, j < hi), fn(j)))
 
 
 def opt_isnone(x):
